@@ -596,6 +596,9 @@ func (index *setIndex) deleteIndexKey(tx *bbolt.Tx, key []byte) error {
 	if indexBucket == nil {
 		return errors.Errorf("bucket at %+v for index not created", index.indexPath)
 	}
+	if err := verifHook("idx.deleteIndexKey"); err != nil {
+		return err
+	}
 	return indexBucket.DeleteBucket(key)
 }
 
